@@ -120,6 +120,11 @@ def run(prop, tier, rule):
     from ginverif.checks import common_dynreg
     common_dynreg.run_into(rep, tier, 'C15', focus=lambda c: c['skip']['mode'] != 'false',
                            budget=300 if tier == 'quick' else 4000, main_sim=500 if tier == 'quick' else 6000)
+  if prop == 'C16':
+    # failing files under dynamic registration: error class, what was applied, and the location of the offending statement
+    from ginverif.checks import common_dynreg
+    common_dynreg.run_into(rep, tier, 'C16', focus=lambda c: c['status'] != 'ok',
+                           budget=250 if tier == 'quick' else 4000, main_sim=500 if tier == 'quick' else 6000)
   foc = [c for f, c, _ in chosen if f]
   if foc:
     c = foc[0]
